@@ -86,6 +86,9 @@ func (b *c08Builder) invoke(tag string, n int) {
 
 func (c *c08Case) scenario(withPrefix bool) *Scenario {
 	sc := &Scenario{Config: Config{TimeoutMs: c08T, TimeoutEnvS: 9}, Actors: map[string][]Script{}, BudgetS: 60, SelectBy: "stage"}
+	if strings.HasPrefix(c.Late, "delay.") {
+		sc.Config.TimeoutMs = 1500 // both runs: the suffix invocation is held for 600 ms in the delayed-delivery family
+	}
 	b := &c08Builder{sc: sc}
 	loop := Script{Steps: []Step{{Op: "rt.loop"}}}
 	if sc.Driver == nil {
@@ -167,13 +170,22 @@ func (c *c08Case) scenario(withPrefix bool) *Scenario {
 			sc.Driver = append(sc.Driver, Step{Op: "reset", Reason: "test", Ms: 2000})
 		}
 	}
-	if withPrefix && c.Late != "" {
+	delayed := strings.HasPrefix(c.Late, "delay.")
+	if withPrefix && c.Late != "" && !delayed {
 		sc.Hooks = []HookPlan{{Point: "watch.exitRecorded", Nth: len(c.Prefix)*0 + c.lateNth()}}
+	}
+	if withPrefix && delayed {
+		// the supervisor itself is slow: the exit notification of the killed runtime is delivered 2.3 s after its death,
+		// i.e. after the reset gave up waiting (2 s grace) and completed
+		sc.Config.ExitEventDelayMs = map[string]int{"runtime": 2300}
 	}
 	// ---- suffix
 	sc.Driver = append(sc.Driver, Step{Op: "quiet", Ms: 1, Tag: "suffix.begin"})
 	if withPrefix && c.Late == "idle" {
 		sc.Driver = append(sc.Driver, Step{Op: "hook.release", Point: "watch.exitRecorded"}, Step{Op: "sleep", Ms: 30})
+	}
+	if withPrefix && c.Late == "delay.idle" {
+		sc.Driver = append(sc.Driver, Step{Op: "sleep", Ms: 600}) // the late notification arrives while nothing is in flight
 	}
 	sx := c.Suffix
 	firstStage := true
@@ -190,13 +202,17 @@ func (c *c08Case) scenario(withPrefix bool) *Scenario {
 		if sx.Kind == "error" {
 			rt = Script{Steps: []Step{{Op: "rt.loop", Respond: "error", ErrType: "Function.SuffixErr"}}}
 		}
-		if withPrefix && (c.Late == "init" || c.Late == "invoke") {
+		if withPrefix && (c.Late == "init" || c.Late == "invoke" || c.Late == "delay.invoke") {
 			rt = Script{Steps: []Step{{Op: "await", Name: "late.init", Ms: 5000}, {Op: "rt.next"}, {Op: "await", Name: "late.invoke", Ms: 5000}, {Op: "rt.response", ID: "cur", BodyMode: "transform"}, {Op: "rt.loop"}}}
 		}
 		stage(sx.Exts, rt)
-		if withPrefix && (c.Late == "init" || c.Late == "invoke") {
+		if withPrefix && (c.Late == "init" || c.Late == "invoke" || c.Late == "delay.invoke") {
 			sc.Driver = append(sc.Driver, Step{Op: "invoke", Tag: "S0", Async: true, Payload: &kit.Blob{Len: 16, Seed: 0, Kind: "ascii"}})
-			if c.Late == "init" {
+			if c.Late == "delay.invoke" {
+				// hold the invocation in the runtime until the late notification has certainly been delivered
+				sc.Driver = append(sc.Driver, Step{Op: "signal", Name: "late.init"}, Step{Op: "waitstate", Who: "runtime", State: "Running", Ms: 4000}, Step{Op: "sleep", Ms: 600},
+					Step{Op: "signal", Name: "late.invoke"})
+			} else if c.Late == "init" {
 				sc.Driver = append(sc.Driver, Step{Op: "waitreserved"}, Step{Op: "sleep", Ms: 20}, Step{Op: "hook.release", Point: "watch.exitRecorded"}, Step{Op: "sleep", Ms: 20},
 					Step{Op: "signal", Name: "late.init"}, Step{Op: "signal", Name: "late.invoke"})
 			} else {
@@ -534,12 +550,15 @@ func c08Gen(t *rapid.T) c08Case {
 	}
 	c.Suffix = c08Suffix{Kind: rapid.SampledFrom([]string{"healthy", "healthy", "crash", "error", "internal.first", "internal.after", "timeout"}).Draw(t, "suffix"), Exts: c08GenExts(t, "se")}
 	if rapid.IntRange(0, 7).Draw(t, "lateFamily") == 0 {
-		c.Late = rapid.SampledFrom([]string{"idle", "init", "invoke"}).Draw(t, "late")
+		c.Late = rapid.SampledFrom([]string{"idle", "init", "invoke", "delay.idle", "delay.invoke"}).Draw(t, "late")
 		c.Suffix.Kind = "healthy"
 		// the parked notification belongs to the runtime of the last prefix generation, which must be alone in it
 		c.Prefix[len(c.Prefix)-1] = c08Item{Kind: "timeout.resp"}
 		for k := 0; k < len(c.Prefix)-1; k++ {
 			c.Prefix[k] = c08Item{Kind: "ok", Exts: c.Prefix[k].Exts}
+		}
+		if strings.HasPrefix(c.Late, "delay.") {
+			c.Prefix = c.Prefix[len(c.Prefix)-1:]
 		}
 	}
 	return c
@@ -556,6 +575,8 @@ func c08Fixed() []c08Case {
 		{Prefix: []c08Item{{Kind: "ok"}, {Kind: "timeout.resp"}}, Suffix: c08Suffix{Kind: "healthy"}, Late: "idle"},
 		{Prefix: []c08Item{{Kind: "timeout.resp"}}, Suffix: c08Suffix{Kind: "healthy"}, Late: "init"},
 		{Prefix: []c08Item{{Kind: "timeout.resp"}}, Suffix: c08Suffix{Kind: "healthy"}, Late: "invoke"},
+		{Prefix: []c08Item{{Kind: "timeout.resp"}}, Suffix: c08Suffix{Kind: "healthy"}, Late: "delay.idle"},
+		{Prefix: []c08Item{{Kind: "timeout.resp"}}, Suffix: c08Suffix{Kind: "healthy", Exts: []string{"I"}}, Late: "delay.invoke"},
 	}
 }
 
